@@ -55,9 +55,9 @@ def main():
     if demo_cmd:
         rc1, o1 = sh(demo_cmd, cwd=wt, timeout=1800)
         meta["confirmed"]["demo_fails_with_change"] = rc1 != 0
-        sh("git stash", cwd=wt)
+        open("/tmp/seedpy-%s.patch" % name, "w").write(patch); sh("git apply -R /tmp/seedpy-%s.patch" % name, cwd=wt)
         rc2, o2 = sh(demo_cmd, cwd=wt, timeout=1800)
-        sh("git stash pop", cwd=wt)
+        sh("git apply /tmp/seedpy-%s.patch" % name, cwd=wt)
         meta["confirmed"]["demo_passes_without_change"] = rc2 == 0
         meta["confirmed"]["demo_output_with_change_tail"] = o1[-600:]
     # 3. our checks
